@@ -12,7 +12,8 @@ ID = "C15"
 LEVEL = "exploration"
 RULE = ("Hypothesis-generated programs for the 8 buffered classes over 2-4 existing files (one object "
         "each): enter/exit obj.buffered, enter/exit Class.buffer_backend() with and without a capacity "
-        "argument (nested), set_buffer_capacity(n) with n from {0, 1, about one document, about half "
+        "argument (nested; one exit in six with an injected I/O error at the k-th file-system call of its "
+        "flush), set_buffer_capacity(n) with n from {0, 1, about one document, about half "
         "the buffered total, huge}, every mutator and read at roots and nested handles, clear/reset "
         "also as first buffered access. After EVERY step the reported size must equal a "
         "documented-semantics model (serialized: sum of JSON-encoded bytes of the files that have a "
@@ -88,6 +89,9 @@ def _gen_step(ci, dom, nfiles, script=None):
                 s["cap"] = _caps(draw, w)
             return s
         if c < 10 and w.stack:
+            if draw(st.integers(0, 5)) == 0:
+                # the flush at this exit hits an I/O error at its k-th file-system call
+                return {"t": "exit", "fault_k": draw(st.integers(1, 6))}
             return {"t": "exit"}
         if c < 13:
             return {"t": "setcap", "n": _caps(draw, w)}
@@ -162,7 +166,8 @@ def run_shard(spec, seed, tier, active):
         w = wm.run_generated(ID, ci, docs, _gen_step(ci, dom, nfiles, script), draw, max_steps,
                              engine="acctworld")
         nt, kinds = _kinds(w)
-        cnt = {"forced_flushes": w.forced, "cases_with_forced_flush": int(w.forced > 0)}
+        cnt = {"forced_flushes": w.forced, "cases_with_forced_flush": int(w.forced > 0),
+               "exits_with_injected_io_error": w.events.get("faulted_exit", 0)}
         sample = {"class": ci.name, "initial": docs, "steps": w.log[:20]} if nt else None
         acc.case([h64(ci.name, kinds)] if nt else (), sample, cnt)
 
